@@ -32,6 +32,7 @@ The code as found violates the property (`shared_*`), and copying only the `data
 does not repair it (`arrays_*`).
 -/
 import ZenoModel.Lemmas.SnapshotRefl
+import ZenoModel.Generated.Facts
 
 set_option linter.unusedSimpArgs false
 set_option linter.unusedVariables false
@@ -60,6 +61,37 @@ def reflects (c : List Nat) (p : Nat) : Prop := p ∈ c
 /-- deliveries of a history from the empty table -/
 def deliveries (mode : CopyMode) (es : List (Ev Nat)) : List (Delivery (List Nat)) :=
   (run (prov 2) mode {} es).2
+
+/-- a concrete environment: the truncation bound (ids double as timestamps: a file column all of
+    whose points are older than `tb` has expired and is dropped by `Merge`) and the field list
+    (`rowMerger` / `rowMapper` map only the listed fields) -/
+structure EnvX where
+  tb : Nat
+  fields : List Nat
+  deriving Repr, DecidableEq
+
+def provE (en : EnvX) : Cfg (List Nat) Nat :=
+  { prov 2 with
+    merge := fun f a b =>
+      if en.fields.contains f then
+        (prov 2).merge f (match a with
+          | some x => if x.all (fun i => decide (i < en.tb)) then none else some x
+          | none => none) b
+      else none }
+
+/-- variants of the scan path that re-read ONE component of the environment per row -/
+def rrClock (captured current : EnvX) : EnvX := { captured with tb := current.tb }
+def rrFields (captured current : EnvX) : EnvX := { captured with fields := current.fields }
+
+def env0 : EnvX := { tb := 0, fields := [0, 1] }
+
+/-- k0 and k1 in file and memstore; after the row of k0 the environment changes; then k1 -/
+def envSchedule (e' : EnvX) : List (EEv Nat EnvX) :=
+  [.base (.ingest 0), .base (.ingest 1), .base (.flush true), .base (.ingest 4), .base (.ingest 5),
+   .base .scanStart, .base (.deliver 0 0), .setEnv e', .base (.deliver 0 1)]
+
+def edeliveries (rr : EnvX → EnvX → EnvX) (es : List (EEv Nat EnvX)) : List (Delivery (List Nat)) :=
+  (erun provE .deep rr { cur := env0 } es).2
 
 end Zeno.SnapEx
 
@@ -163,6 +195,89 @@ theorem prov_only (nf : Nat) : Only (prov nf) reflects := by
   · intro row row' f c' q hw hg hR
     cases hw
     exact ⟨c', hg, hR⟩
+
+/-! ### the scan's environment: clock / truncation bound, field lists, file store -/
+
+/-- With EVERYTHING a delivery uses taken from the record captured at `scanStart` (memstore copy,
+    file store, and the environment: clock / truncation bound, field lists, …), each delivered
+    row equals the table as of the scan's start — whatever happens to heap, file AND environment
+    (`setEnv`: clock advanced past retention boundaries, ALTER TABLE, …) in between. -/
+theorem scan_is_snapshot_env {E : Type} (cfgOf : E → Cfg C P) (hs : SameShape cfgOf) (e0 : E)
+    (pre post : List (EEv P E)) (k : Key) (r : Option (Row C))
+    (h : ((erun cfgOf .deep keepCaptured { cur := e0 } pre).1.base.scans.length, k, r) ∈
+      (erun cfgOf .deep keepCaptured (erun cfgOf .deep keepCaptured { cur := e0 } pre).1
+        (EEv.base Ev.scanStart :: post)).2) :
+    r = eview cfgOf (erun cfgOf .deep keepCaptured { cur := e0 } pre).1 k := by
+  have i := einv_erun cfgOf hs keepCaptured pre _ (einv_init cfgOf e0)
+  generalize (erun cfgOf .deep keepCaptured { cur := e0 } pre).1 = s at h i ⊢
+  obtain ⟨g, hsc, hv⟩ := good_scanStart (cfgOf s.cur) s.base i.inv
+  have g1 := egood_estep cfgOf hs keepCaptured s i (EEv.base Ev.scanStart)
+  simp only [erun, Option.toList, List.nil_append] at h
+  have h1 : (estep cfgOf .deep keepCaptured s (EEv.base Ev.scanStart)).1 =
+      { s with base := scanStart .deep s.base, envs := s.envs ++ [s.cur] } := rfl
+  have h2 : (estep cfgOf .deep keepCaptured s (EEv.base Ev.scanStart)).2 = none := rfl
+  rw [h2] at h
+  simp only [Option.toList, List.nil_append] at h
+  rw [h1] at h g1
+  have hsc' : ({ s with base := scanStart .deep s.base, envs := s.envs ++ [s.cur] } :
+      EState C E).base.scans[s.base.scans.length]? =
+      some { nodes := (copyNodes .deep s.base.heap s.base.live).2, file := s.base.file } := by
+    simp only [hsc]; simp
+  have hen' : ({ s with base := scanStart .deep s.base, envs := s.envs ++ [s.cur] } :
+      EState C E).envs[s.base.scans.length]? = some s.cur := by
+    simp only [← i.len]; simp
+  have := erun_deliveries cfgOf hs post _ g1.inv _ _ _ hsc' hen' k r h
+  rw [this]
+  simp only [deliverRow, eview, view, hv]
+
+/-- `provE` changes only `merge` with the environment -/
+theorem provE_sameShape : SameShape provE := fun _ _ => rfl
+
+/-- Re-reading the CLOCK per row (e.g. handing the method value `fs.t.truncateBefore` to
+    `rowMerger`) breaks the property: after the clock moved past the retention boundary of k1's
+    file data, the row of k1 has lost it, while the row of k0, delivered before, kept its own. -/
+theorem reread_clock_breaks_snapshot :
+    edeliveries rrClock (envSchedule { tb := 3, fields := [0, 1] }) =
+      [(0, 0, some [some [0, 4], some [0, 4]]), (0, 1, some [some [5], some [5]])] ∧
+    edeliveries keepCaptured (envSchedule { tb := 3, fields := [0, 1] }) =
+      [(0, 0, some [some [0, 4], some [0, 4]]), (0, 1, some [some [1, 5], some [1, 5]])] :=
+  ⟨by decide +kernel, by decide +kernel⟩
+
+/-- Re-reading the table's FIELD LIST per row breaks it: after an ALTER that drops field 1 the
+    row of k1 comes without it. -/
+theorem reread_fields_breaks_snapshot :
+    edeliveries rrFields (envSchedule { tb := 0, fields := [0] }) =
+      [(0, 0, some [some [0, 4], some [0, 4]]), (0, 1, some [some [1, 5], none])] ∧
+    edeliveries keepCaptured (envSchedule { tb := 0, fields := [0] }) =
+      [(0, 0, some [some [0, 4], some [0, 4]]), (0, 1, some [some [1, 5], some [1, 5]])] :=
+  ⟨by decide +kernel, by decide +kernel⟩
+
+/-- Re-reading the FILE STORE at delivery time breaks it: after a flush the new file already
+    contains what the scan's memstore copy holds — the row counts point 0 twice. -/
+theorem reread_file_breaks_snapshot :
+    (match (run (prov 2) .deep {} [.ingest 0, .scanStart, .flush true]).1.scans[0]? with
+      | some sc => deliverRowLiveFile (prov 2) (run (prov 2) .deep {} [.ingest 0, .scanStart, .flush true]).1 sc 0
+      | none => none) = some [some [0, 0], some [0, 0]] ∧
+    view (prov 2) (run (prov 2) .deep {} [.ingest 0]).1 0 = some [some [0], some [0]] :=
+  ⟨by decide +kernel, by decide +kernel⟩
+
+/-- Regenerated from row_store.go on every run (tools/extract/scanreads.go): the per-row code of
+    the scan path reads nothing from the table / database but the logger, the (immutable) file
+    name and resolution; it calls no captured function but the consumer callbacks; and the
+    closures of `rowMerger` / `rowMapper` are built from VALUES computed before the first row.
+    A new per-row read (a method value such as `fs.t.truncateBefore`, `fs.t.getFields()`,
+    `rs.fileStore`, `db.clock…`) makes this fail. -/
+theorem scan_path_reads_expected :
+    Facts.scanPerRowReads.map (fun r => (r.func, r.expr)) =
+      [("fileStore.iterate", "fs.filename"), ("fileStore.iterate", "fs.t.Resolution"),
+       ("fileStore.iterate", "fs.t.log.Errorf"), ("fileStore.iterate", "fs.t.log.IsTraceEnabled"),
+       ("fileStore.iterate", "fs.t.log.Tracef")] ∧
+    Facts.scanPerRowParamCalls.map (fun r => (r.func, r.expr)) =
+      [("fileStore.iterate", "onRow"), ("rowStore.iterate", "onValue")] ∧
+    Facts.scanHelperArgs =
+      [("rowMerger", ["outFields", "ms.fields", "fs.t.Resolution", "truncateBefore"]),
+       ("rowMapper", ["outFields", "fileFields"])] := by
+  decide
 
 /-! ### the code as found (`shared`) and the half repair (`arrays`) violate the property -/
 
